@@ -1,6 +1,7 @@
 import SR.Drv.Loop
 import SR.Checker.Sched
 import SR.Checker.Spec
+import SR.Checker.Sim
 /-! Driver commands of the checker group (C01, C02, C03, C11, C12, C13): `chk` runs the machine
 scheduler; `o-chk <prop> ...` evaluates the declarative oracle of one property on implementation outputs. -/
 namespace SR.Drv.Chk
@@ -102,7 +103,13 @@ def oracleC01 (c : Case) (o : Obs) : List String :=
      (if o.uniq == reach.length then [] else ["unique-count-not-reachable-size"])
    else [])
 
-def witnessOk (c : Case) (i : Nat) (p : List Nat) : List String :=
+/-- the path's last state repeats an earlier state of the path -/
+def closesCycle (p : List Nat) : Bool :=
+  match p.reverse with
+  | [] => false
+  | l :: rest => rest.contains l
+
+def witnessOk (c : Case) (i : Nat) (p : List Nat) (sim : Bool := false) : List String :=
   let g := c.g
   match c.props[i]? with
   | none => ["discovery-for-unknown-property"]
@@ -113,10 +120,10 @@ def witnessOk (c : Case) (i : Nat) (p : List Nat) : List String :=
      | .sometimes => if pr.tbl.getD (lastOf p) false then [] else ["sometimes-discovery-last-state-does-not-satisfy"]
      | .eventually =>
        (if p.any (fun s => pr.tbl.getD s false) then ["eventually-discovery-path-satisfies-condition"] else []) ++
-       (if (g.succB (lastOf p)).isEmpty then [] else ["eventually-discovery-path-extensible-inside-boundary"]))
+       (if (g.succB (lastOf p)).isEmpty || (sim && closesCycle p) then [] else ["eventually-discovery-path-extensible-inside-boundary"]))
 
-def oracleC03 (c : Case) (o : Obs) : List String :=
-  o.disc.flatMap fun (i, p) => witnessOk c i p
+def oracleC03 (c : Case) (o : Obs) (sim : Bool := false) : List String :=
+  o.disc.flatMap fun (i, p) => witnessOk c i p sim
 
 def oracleC02 (c : Case) (o : Obs) : List String :=
   let reach := c.g.reachList
@@ -136,7 +143,7 @@ def oracleC02 (c : Case) (o : Obs) : List String :=
         if names.contains i == ex then [] else [s!"sometimes-verdict-wrong-p{i}"]
       | .eventually => []
 
-def oracleC11 (c : Case) (o : Obs) : List String :=
+def oracleC11 (c : Case) (o : Obs) (sim : Bool := false) : List String :=
   let names := o.disc.map (·.1)
   (List.range c.props.length).flatMap fun i =>
     match c.props[i]? with
@@ -145,7 +152,7 @@ def oracleC11 (c : Case) (o : Obs) : List String :=
       if pr.exp != .eventually then [] else
       let ex := c.g.canAvoidForever (fun s => pr.tbl.getD s false)
       (if names.contains i && !ex then [s!"eventually-false-alarm-p{i}"] else []) ++
-      (if completeRun c o && c.g.isForest && ex && !names.contains i then [s!"eventually-missed-on-forest-p{i}"] else [])
+      (if !sim && completeRun c o && c.g.isForest && ex && !names.contains i then [s!"eventually-missed-on-forest-p{i}"] else [])
 
 def oracleC13 (c : Case) (strat : String) (o : Obs) : List String :=
   if strat != "bfs" then [] else
@@ -185,6 +192,17 @@ def handle : Drv.Handler
     let d := if strat == "dfs" then Discipline.dfs else if strat == "bfs" then Discipline.bfs else Discipline.ondemand
     let s := runSingle c.params d (fuelFor g ps)
     pure (showSt s)
+  | "sim", [g, ps, cfg, ans] => do
+    let g ← Graph.ofSExp? g
+    let ps ← ps.listOf? GProp.ofSExp?
+    let (cfg, fin) ← parseCfg cfg
+    let ans ← ans.nats?
+    let c : Case := { g, props := ps, cfg, finish := fin }
+    let r := Sim.runTraces c.params (g.n + 3) (ans.length + 20) ans {}
+    let s : St Nat Nat := { gen := [], frontier := [], active := [], done := [], disc := r.disc, stateCount := r.stateCount,
+                            maxDepth := r.maxDepth, visits := r.visits, early := false, stopped := false }
+    -- unique_state_count of the simulation checker is its state_count
+    pure ((showSt s).replace "(uniq 0)" s!"(uniq {r.stateCount})")
   | "o-chk", [.atom prop, .atom strat, g, ps, cfg, obs] => do
     let g ← Graph.ofSExp? g
     let ps ← ps.listOf? GProp.ofSExp?
@@ -193,12 +211,13 @@ def handle : Drv.Handler
     match ← Obs.ofSExp? obs with
     | none => pure "implementation-panicked"
     | some o =>
+      let sim := strat == "sim"
       let errs := match prop with
-        | "c01" => oracleC01 c o
-        | "c02" => oracleC02 c o
-        | "c03" => oracleC03 c o
-        | "c11" => oracleC11 c o ++ oracleC03 c o
-        | "c12" => oracleC12 c o
+        | "c01" => if sim then [] else oracleC01 c o
+        | "c02" => if sim then [] else oracleC02 c o
+        | "c03" => oracleC03 c o sim
+        | "c11" => oracleC11 c o sim ++ oracleC03 c o sim
+        | "c12" => if sim then (oracleC12 { c with cfg := { c.cfg with target := none } } o) else oracleC12 c o
         | "c13" => oracleC13 c strat o
         | _ => ["unknown-property"]
       pure (if errs.isEmpty then "ok" else " ".intercalate errs)
